@@ -579,11 +579,20 @@ class ClassModificationArgument(Node):
         )
 
     def __deepcopy__(self, memo):
-        _scope, _deepcp = self.scope, self.__deepcopy__
+        # The scope is a reference into the instance tree and is shared, not
+        # copied. Temporarily shadow this method on the instance so that
+        # copy.deepcopy() falls back to the default behavior.
+        _scope = self.scope
         self.scope, self.__deepcopy__ = None, None
-        new = copy.deepcopy(self, memo)
-        self.scope, self.__deepcopy__ = _scope, _deepcp
-        new.scope, new.__deepcopy__ = _scope, _deepcp
+        try:
+            new = copy.deepcopy(self, memo)
+        finally:
+            self.scope = _scope
+            del self.__deepcopy__
+        # The copy must use its own (class-level) __deepcopy__, not one bound
+        # to the object it was copied from.
+        del new.__deepcopy__
+        new.scope = _scope
         return new
 
 
@@ -854,15 +863,22 @@ class Class(Node):
         self.initial_equations.remove(e)
 
     def __deepcopy__(self, memo):
-        # Avoid copying the entire tree
-        if self.parent is not None and self.parent not in memo:
+        # Avoid copying the entire tree: a parent that is not being copied
+        # itself stays a reference to the original parent. (The memo is keyed
+        # by object id.)
+        if self.parent is not None and id(self.parent) not in memo:
             memo[id(self.parent)] = self.parent
 
-        _deepcp = self.__deepcopy__
+        # Temporarily shadow this method on the instance so that
+        # copy.deepcopy() falls back to the default behavior.
         self.__deepcopy__ = None
-        new = copy.deepcopy(self, memo)
-        self.__deepcopy__ = _deepcp
-        new.__deepcopy__ = _deepcp
+        try:
+            new = copy.deepcopy(self, memo)
+        finally:
+            del self.__deepcopy__
+        # The copy must use its own (class-level) __deepcopy__, not one bound
+        # to the object it was copied from.
+        del new.__deepcopy__
         return new
 
     def __repr__(self):
